@@ -1,0 +1,50 @@
+/*!
+Verification hooks.
+
+This module only exists when the crate is compiled with `--cfg emit_rs_emit_verif`. It lets a test harness:
+
+- lower the size limit that splits a batch into requests, for events emitted from the calling thread ([`set_max_request_size_bytes`]), so multi-request batches don't need megabytes of payload.
+- shorten the timeout applied to each request ([`set_request_timeout`]), so an unresponsive collector can be observed quickly.
+
+Without overrides every function here returns the crate's defaults.
+*/
+
+use std::{
+    cell::Cell,
+    sync::atomic::{AtomicU64, Ordering},
+    time::Duration,
+};
+
+thread_local! {
+    static MAX_REQUEST_SIZE_BYTES: Cell<Option<usize>> = const { Cell::new(None) };
+}
+
+static REQUEST_TIMEOUT_MILLIS: AtomicU64 = AtomicU64::new(0);
+
+/**
+Override the maximum request size for events emitted from the calling thread, or restore the default with `None`.
+*/
+pub fn set_max_request_size_bytes(max_request_size_bytes: Option<usize>) {
+    MAX_REQUEST_SIZE_BYTES.with(|v| v.set(max_request_size_bytes));
+}
+
+/**
+Override the timeout applied to each request by all emitters in the process, or restore the default with `None`.
+*/
+pub fn set_request_timeout(timeout: Option<Duration>) {
+    REQUEST_TIMEOUT_MILLIS.store(
+        timeout.map(|t| t.as_millis() as u64).unwrap_or(0),
+        Ordering::SeqCst,
+    );
+}
+
+pub(crate) fn max_request_size_bytes(default: usize) -> usize {
+    MAX_REQUEST_SIZE_BYTES.with(|v| v.get()).unwrap_or(default)
+}
+
+pub(crate) fn request_timeout(default: Duration) -> Duration {
+    match REQUEST_TIMEOUT_MILLIS.load(Ordering::SeqCst) {
+        0 => default,
+        millis => Duration::from_millis(millis),
+    }
+}
